@@ -114,3 +114,62 @@ example : chained 5 [⟨false, 5, 6⟩, ⟨true, 6, 9⟩, ⟨false, 9, 9⟩] = t
     finalGen 5 [⟨false, 5, 6⟩, ⟨true, 6, 9⟩, ⟨false, 9, 9⟩] = 9 := by decide
 
 end DM.C11
+
+/-! ### nearest visible facet -/
+namespace DM.C11
+open DM.Hull
+
+/-- nothing visible ⇔ no answer -/
+theorem nearest_none_iff (fs : List (Nat × Int)) : nearest fs = none ↔ fs = [] := by
+  cases fs with
+  | nil => simp [nearest]
+  | cons f rest =>
+    simp only [nearest, reduceCtorEq, iff_false]
+    cases nearest rest with
+    | none => simp
+    | some g => by_cases h : f.2 ≤ g.2 <;> simp [h]
+
+/-- the answer is one of the visible facets -/
+theorem nearest_mem (fs : List (Nat × Int)) (g : Nat × Int) (h : nearest fs = some g) : g ∈ fs := by
+  induction fs generalizing g with
+  | nil => simp [nearest] at h
+  | cons f rest ih =>
+    simp only [nearest] at h
+    cases hr : nearest rest with
+    | none => rw [hr] at h; simp at h; simp [h]
+    | some g' =>
+      rw [hr] at h
+      by_cases hle : f.2 ≤ g'.2
+      · simp [hle] at h; simp [h]
+      · simp [hle] at h; subst h; exact List.mem_cons_of_mem _ (ih g' hr)
+
+/-- and no visible facet has a smaller key -/
+theorem nearest_minimal (fs : List (Nat × Int)) (g : Nat × Int) (h : nearest fs = some g) :
+    ∀ f ∈ fs, g.2 ≤ f.2 := by
+  induction fs generalizing g with
+  | nil => simp [nearest] at h
+  | cons f rest ih =>
+    simp only [nearest] at h
+    intro x hx
+    cases hr : nearest rest with
+    | none =>
+      rw [hr] at h; simp at h; subst h
+      have : rest = [] := (nearest_none_iff rest).1 hr
+      subst this
+      simp at hx; subst hx; exact Int.le_refl _
+    | some g' =>
+      rw [hr] at h
+      have hmin := ih g' hr
+      by_cases hle : f.2 ≤ g'.2
+      · simp [hle] at h; subst h
+        rcases List.mem_cons.1 hx with rfl | hx'
+        · exact Int.le_refl _
+        · exact Int.le_trans hle (hmin x hx')
+      · simp [hle] at h; subst h
+        rcases List.mem_cons.1 hx with rfl | hx'
+        · omega
+        · exact hmin x hx'
+
+example : nearest [(0, 12797), (1, 12477), (2, 14579), (3, 11358)] = some (3, 11358) := by decide
+
+end DM.C11
